@@ -426,6 +426,74 @@ def check_c11_conversions(chk, sref, root, lib, std="c++17"):
     return len(tags)
 
 
+CVW = r'''
+#include <sbepp/sbepp.hpp>
+#include <type_traits>
+#include <iterator>
+namespace wcv {
+struct tag {};
+template<typename B> using sarr = ::sbepp::detail::static_array_ref<B, char, 4, tag>;
+template<typename B> using sarr8 = ::sbepp::detail::static_array_ref<B, std::uint8_t, 3, tag>;
+template<typename B> using darr = ::sbepp::detail::dynamic_array_ref<B, char, ::sbepp::uint32_t, ::sbepp::endian::little>;
+template<typename B> using darr8 = ::sbepp::detail::dynamic_array_ref<B, std::uint8_t, ::sbepp::uint8_t, ::sbepp::endian::big>;
+template<typename R> using unref = typename std::remove_reference<R>::type;
+template<typename P> using unptr = typename std::remove_pointer<P>::type;
+%(body)s
+}
+'''
+
+
+def check_cv_witness(chk, root, std="c++17", compiler="clang++"):
+    """W-CV: const-ness of what array references hand out, for every cv-qualification of the byte type (the library
+    copies the byte type's cv-qualifiers onto the element type): for a byte type that is const - also `const
+    volatile` - `reference`, `pointer`, `element_type` and the iterators' reference types are const, so no element
+    store type-checks; for a non-const byte type they are not (mutable views stay usable).  Type computations only."""
+    cvs = [("char", False, False), ("const char", True, False), ("volatile char", False, True), ("const volatile char", True, True),
+           ("const unsigned char", True, False), ("const volatile unsigned char", True, True)]
+    body, tags = [], {}
+
+    def add(line, what):
+        body.append(line)
+        tags[len(body)] = what
+    for frm, c, v in cvs:
+        for to in ("char", "std::uint8_t", "int"):
+            want = ("const " if c else "") + ("volatile " if v else "") + to
+            add("static_assert(std::is_same< ::sbepp::detail::apply_cv_qualifiers_t<%s, %s>, %s>::value, \"\");" % (frm, to, want),
+                "apply_cv_qualifiers_t<%s, %s> is %s" % (frm, to, want))
+        for arr in ("sarr", "sarr8", "darr", "darr8"):
+            for member, strip in (("reference", "unref"), ("pointer", "unptr"), ("element_type", ""),
+                                  ("iterator", "unptr"), ("reverse_iterator::reference", "unref")):
+                t = "typename %s<%s>::%s" % (arr, frm, member) if "::" not in member else "typename %s<%s>::%s" % (arr, frm, member)
+                expr = "std::is_const<%s>::value" % (("%s<%s>" % (strip, t)) if strip else t)
+                add("static_assert(%s%s, \"\");" % ("" if c else "!", expr),
+                    "%s<%s>::%s refers to %s elements" % (arr, frm, member, "const" if c else "non-const"))
+    src = CVW % {"body": "\n".join(body)}
+    first = src.splitlines().index(body[0]) + 1
+    d = os.path.join(root, "_witness")
+    os.makedirs(d, exist_ok=True)
+    p = os.path.join(d, "cv_%s_%s.cpp" % (compiler.replace("+", "p"), std.replace("+", "p")))
+    open(p, "w").write(src)
+    flags = ["-std=" + std, "-I" + os.path.join(REPO, "sbepp/src")]
+    rc, blocks, err = compile_neg(p, flags, compiler)
+    bad = {}
+    foreign = []
+    for b in blocks:
+        mine = [ln for f, ln in b["locs"] if os.path.basename(f) == os.path.basename(p)]
+        if mine:
+            bad.setdefault(mine[0] - first + 1, b["msg"])
+        else:
+            foreign.append(b["msg"])
+    if foreign and not bad:
+        raise AnalysisBroken("cv witness TU does not compile for a reason outside the witness lines: %s" % foreign[:2])
+    for i, what in sorted(tags.items()):
+        if i in bad:
+            chk.violation("W-CV", "cv|" + what.split(" refers")[0].split(" is ")[0], "%s:%d" % (p, first + i - 1),
+                          "type witness fails under %s -std=%s: %s does not hold (%s)" % (compiler, std, what, bad[i][:120]))
+        else:
+            chk.ok("W-CV", "cv|%s@%s-%s" % (what, compiler, std), {"witness": body[i - 1][:150]})
+    return len(tags)
+
+
 def check_no_const_removal(chk, lib, root):
     """no cast in sbepp.hpp / generated code removes const from a pointee; no mutable members"""
     n = 0
